@@ -22,9 +22,9 @@ type cfg struct {
 	ntt    bool // NTTFlag of the parameters (domain of ciphertexts in the functional oracle)
 	n      int  // parties
 	mode   mp.Mode
-	bound  int  // deviation bound: non-default merge variants (Full/Adjacent), also non-index-order steps (LeftDeep)
-	lq, lp int  // evaluation-key LevelQ / LevelP; lq = -1: max; lp = -2: max (lp = -1: no auxiliary modulus)
-	b2     int  // BaseTwoDecomposition
+	bound  int // deviation bound: non-default merge variants (Full/Adjacent), also non-index-order steps (LeftDeep)
+	lq, lp int // evaluation-key LevelQ / LevelP; lq = -1: max; lp = -2: max (lp = -1: no auxiliary modulus)
+	b2     int // BaseTwoDecomposition
 	galEl  uint64
 	crs    int
 }
